@@ -1140,11 +1140,11 @@ theorem hdrOk_spec (names : List Str) (trail : Str) (h : hdrOk names trail = tru
       cases hg : (n0 :: r).getLast? with
       | none => simp at hg
       | some z =>
-        rw [hg] at hl
+        simp only [hg] at hl
         cases hz : z.getLast? with
-        | none => rw [hz] at hl; simp at hl
+        | none => simp only [hz] at hl; cases hl
         | some cz =>
-          rw [hz] at hl
+          simp only [hz] at hl
           have hzne : z ≠ [] := by intro e; rw [e] at hz; simp at hz
           rw [getLast?_joinTab _ z hg hzne, hz] at hc
           simp only [Option.some.injEq] at hc
@@ -1211,9 +1211,10 @@ theorem stepLine_header (o : Opts) (st : PState) (names : List Str) (trail : Str
     rw [stepLine_hash o st _ _ hl, hst, hstripJ', splitOnC_joinTab names hne htabs]
     rfl
 
-def isBlankLine : GLine → Bool
-  | .blank _ => true
-  | _ => false
+theorem fileRows_cons_comment (raw : Str) (r : List GLine) : fileRows (GLine.comment raw :: r) = fileRows r := rfl
+theorem fileRows_cons_blank (raw : Str) (r : List GLine) : fileRows (GLine.blank raw :: r) = fileRows r := rfl
+theorem fileRows_cons_header (n : List Str) (t : Str) (r : List GLine) : fileRows (GLine.header n t :: r) = fileRows r := rfl
+theorem fileRows_cons_row (fs : List Field) (r : List GLine) : fileRows (GLine.row fs :: r) = fs :: fileRows r := rfl
 
 theorem foldl_blanks (o : Opts) (st : PState) (pre : List GLine) (hb : ∀ l ∈ pre, isBlankLine l = true)
     (hok : ∀ l ∈ pre, l.ok o = true) : (pre.map GLine.render).foldl (stepLine o) st = st := by
@@ -1243,15 +1244,13 @@ theorem foldl_body (o : Opts) (H : List Str) (hH : H ≠ []) (body : List GLine)
     cases l with
     | header n t => have := hnh _ (List.mem_cons_self); simp [GLine.isHeader] at this
     | comment raw =>
-      rw [stepLine_comment o _ raw (hok _ (by simp)) hH, ih R hr1 hr2]
-      simp [fileRows, GLine.rowFields]
+      rw [stepLine_comment o _ raw (hok _ (by simp)) hH, ih R hr1 hr2, fileRows_cons_comment]
     | blank raw =>
-      rw [stepLine_blankLine o _ raw (hok _ (by simp)), ih R hr1 hr2]
-      simp [fileRows, GLine.rowFields]
+      rw [stepLine_blankLine o _ raw (hok _ (by simp)), ih R hr1 hr2, fileRows_cons_blank]
     | row fs =>
       have hrow : rowOk o fs = true := by simpa [GLine.ok] using hok _ (List.mem_cons_self)
-      rw [stepLine_row o _ fs hrow, ih _ hr1 hr2]
-      simp [fileRows, GLine.rowFields]
+      rw [stepLine_row o _ fs hrow, ih _ hr1 hr2, fileRows_cons_row]
+      simp
 
 theorem fileOk_spec (o : Opts) (hdr0 : List Str) (f : List GLine) (h : fileOk o hdr0 f = true) :
     (∀ l ∈ f, l.ok o = true) ∧
@@ -1272,8 +1271,8 @@ theorem fileOk_spec (o : Opts) (hdr0 : List Str) (f : List GLine) (h : fileOk o 
     refine ⟨rfl, ?_⟩
     have h2 := h.2
     simp only [List.isEmpty_nil, if_true] at h2
-    have hsplit := List.takeWhile_append_dropWhile (p := fun l => match l with | GLine.blank _ => true | _ => false) (l := f)
-    cases hd : f.dropWhile (fun l => match l with | GLine.blank _ => true | _ => false) with
+    have hsplit := List.takeWhile_append_dropWhile (p := isBlankLine) (l := f)
+    cases hd : f.dropWhile isBlankLine with
     | nil => rw [hd] at h2; simp at h2
     | cons l rest =>
       rw [hd] at h2 hsplit
@@ -1281,8 +1280,7 @@ theorem fileOk_spec (o : Opts) (hdr0 : List Str) (f : List GLine) (h : fileOk o 
       | header names trail =>
         refine ⟨_, names, trail, rest, hsplit.symm, ?_, ?_⟩
         · intro l hl
-          have := List.mem_takeWhile_imp hl
-          cases l <;> simp_all [isBlankLine]
+          exact List.mem_takeWhile_imp hl
         · simpa [List.all_eq_true] using h2
       | comment _ => simp at h2
       | blank _ => simp at h2
@@ -1339,7 +1337,7 @@ theorem foldl_file (o : Opts) (hdr0 : List Str) (f : List GLine) (h : fileOk o h
     rw [stepLine_header o _ names trail hhok rfl]
     have := foldl_body o names hnne rest [] (fun l hl => hok l (by rw [hf]; simp [hl])) hrest
     rw [this]
-    simp [fileRows_append, fileRows_blanks pre hpre, fileRows, GLine.rowFields]
+    simp [fileRows_append, fileRows_blanks pre hpre, fileRows_cons_header]
 
 end Chars
 
